@@ -123,6 +123,15 @@ def check_round(case, state):
     require(onev.shape == (len(i1),) and bool(torch.all(onev.imag == 0)) and bool(torch.all((onev.real - dlib[i1]).abs() <= REF_RTOL * dlib[i1])),
             "callform:one-arg-noexpand", "rho(v, expand=False) is not the diagonal entries")
 
+    num = R.lib_to_c(state.importance_sampling_numerator(vp, v))          # rho(sigma', sigma), paired
+    den = R.lib_to_c(state.importance_sampling_denominator(v))
+    wgt = R.lib_to_c(state.importance_sampling_weight(vp, v))
+    require(tol(num, rho[i2, i1], scale[i2, i1]), "importance-sampling:numerator", "importance_sampling_numerator(sigma', sigma) is not rho(sigma', sigma)")
+    require(bool(torch.all(den.imag == 0)) and bool(torch.all((den.real - dlib[i1]).abs() <= REF_RTOL * dlib[i1])), "importance-sampling:denominator",
+            "importance_sampling_denominator(sigma) is not rho(sigma, sigma)")
+    require(bool(torch.all((wgt - rho[i2, i1] / dlib[i1]).abs() <= 1e-6 * scale[i2, i1] / dlib[i1] + 1e-300)), "importance-sampling:weight",
+            "importance_sampling_weight(sigma', sigma) is not rho(sigma', sigma) / rho(sigma, sigma)")
+    require(abs(float(state.compute_normalization(space)) - Z) <= 1e-12 * abs(Z), "alias:compute_normalization", "compute_normalization() differs from normalization()")
     offd = rho - torch.diag(rho.diagonal())
     nt = bool((offd.imag.abs() > 1e-6 * scale).any())
     return {"nontrivial": nt}
